@@ -3,7 +3,7 @@
    weighted leaves / pairs nested arbitrarily, and dynamic weighted lists. *)
 From Coq Require Import List ZArith QArith.
 Import ListNotations.
-From UEC Require Import Base.Dist Ec.Select Ec.SelectProps.
+From UEC Require Import Base.Dist Ec.Select Ec.SelectProps Ec.Documented.
 
 (* whatever a combination can return is an index INTO THE GIVEN POPULATION *)
 Theorem C06_member : forall pol pop s i, possible (select pol pop s) (inl i) -> (i < length pop)%nat.
@@ -20,6 +20,28 @@ Theorem C06_tournament_too_large : forall pol pop k,
   (length pop < k)%nat -> select pol pop (STournament k) = dret (inr ETournamentSize).
 Proof. exact tournament_too_large. Qed.
 Print Assumptions C06_tournament_too_large.
+
+(* an error is reported only in its documented situation, for EVERY combination (tournament sizes are
+   NonZeroUsize in the code: sel_wf):  Empty <-> the population is empty (best / worst / random / lexicase);
+   TournamentSize only when the population is smaller than the tournament; MissingCase only when some
+   individual has fewer results than the configured number of cases; ZeroWeight only at a weighted
+   (sub)combination whose total weight is 0 *)
+Theorem C06_documented : forall pol pop s e, sel_wf s -> possible (select pol pop s) (inr e) -> can_report e pop s.
+Proof. exact select_documented. Qed.
+Print Assumptions C06_documented.
+
+(* and those situations are reported, not answered with a member or a panic *)
+Theorem C06_empty_population_errors : forall pol,
+  select pol [] SBest = dret (inr EEmpty) /\ select pol [] SWorst = dret (inr EEmpty) /\
+  select pol [] SRandom = dret (inr EEmpty) /\
+  (forall k, (1 <= k)%nat -> select pol [] (STournament k) = dret (inr ETournamentSize)).
+Proof. exact empty_population_errors. Qed.
+Print Assumptions C06_empty_population_errors.
+
+Theorem C06_zero_weight_errors : forall pol pop s, weight s = 0%N ->
+  match s with SLeaf _ _ | SPair _ _ | SDynNil | SDynCons _ _ _ => select pol pop s = dret (inr EZeroWeight) | _ => True end.
+Proof. exact zero_weight_errors. Qed.
+Print Assumptions C06_zero_weight_errors.
 
 Example C06_examples :
   select true [] SBest = dret (inr EEmpty) /\ select true [] SRandom = dret (inr EEmpty) /\
